@@ -1,4 +1,5 @@
 import FrappyProofs.Lemmas.Config
+import FrappyProofs.Lemmas.Merge
 import FrappyModel.Klass.ConfigDT
 import FrappyModel.Generated.C10
 /-
@@ -12,26 +13,9 @@ variable {DT Val : Type}
 
 /-! ## rejected as a whole -/
 
-/-- full statement: every kind of erroneous configuration named in the statement is rejected with a
-non-empty report -/
-def rejected_whole_statement : Prop :=
-  ∀ (DT Val : Type) (ops : Ops DT Val) (c : ClassDesc DT Val) (cfg : Cfg Val),
-    Offence ops c cfg → ∃ es, applyConfig ops c cfg = .error es ∧ es ≠ []
-
-/-- the part of `Offence` proved below: unknown names and everything that can be wrong in the cfg of a
-parameter with an own datatype (unknown / ill-typed property, ill-typed value or default, inverted
-limits, missing needscfg value).  Missing: `Offence.badModProp` and `Offence.mandatory` (module
-properties; the fold over `propertyDict` has no lemma yet) — both are covered by the monitor `rejectedB`
-on every observed record.  Derived `Limit` parameters are outside `Offence` (recorded finding). -/
-inductive OffenceProved (ops : Ops DT Val) (c : ClassDesc DT Val) (cfg : Cfg Val) : Prop
-  | unknownName (k : Name) : k ∈ cfg.map (·.1) → k ∉ knownNames c → OffenceProved ops c cfg
-  | param (pd : ParamDesc DT Val) (dt0 : DT) (items : List (Name × Val)) : pd ∈ c.params → pd.dt = some dt0 →
-      pd.limit = none → (lookup pd.name cfg = some (.acc items) ∨ (lookup pd.name cfg = none ∧ items = [])) →
-      ParamOffence ops pd dt0 items → OffenceProved ops c cfg
-
-/-- an accepted configuration contains none of the proved kinds of error -/
+/-- an accepted configuration of a well-formed class contains none of the errors named in the statement -/
 theorem accepted_clean (ops : Ops DT Val) (c : ClassDesc DT Val) (cfg : Cfg Val) (i : Instance DT Val)
-    (h : applyConfig ops c cfg = .ok i) : ¬ OffenceProved ops c cfg := by
+    (wf : WellFormed c) (h : applyConfig ops c cfg = .ok i) : ¬ Offence ops c cfg := by
   have acc := accepted_of_ok ops c cfg i h
   intro hoff
   cases hoff with
@@ -41,16 +25,36 @@ theorem accepted_clean (ops : Ops DT Val) (c : ClassDesc DT Val) (cfg : Cfg Val)
     have : k ∈ (cfg.map (·.1)).filter (fun k => !(knownNames c).contains k) := by
       rw [List.mem_filter]; exact ⟨hk, by simpa using hnot⟩
     rw [hl] at this; cases this
-  | param pd dt0 items hpd hdt hlim hcfg hoff =>
-    obtain ⟨outs, hrun, hinsts, herrs, _⟩ :=
-      foldl_run ops cfg c.params ⟨[], [], [], false⟩ rfl acc.poRaised
-    obtain ⟨insts', o, hadd, ho⟩ := run_mem ops cfg c.params [] outs hrun pd hpd
-    have herr : o.errs = [] := by
-      have h0 : outs.flatMap (·.errs) = [] := by
-        have := acc.poErrs; unfold applyParams at this; rw [herrs] at this; simpa using this
-      rw [List.flatMap_eq_nil_iff] at h0
-      exact h0 o ho
-    have pk := param_ok ops insts' pd dt0 (lookup pd.name cfg) items o hdt hlim hcfg hadd herr
+  | badModProp d v hd hcfg hval =>
+    have hok := ((modProps_ok cfg c.modProps ⟨[], [], false⟩ rfl acc.mpRaised acc.mpErrs).2 d hd).2
+    rcases hcfg with hc | hc | ⟨items, hc, hv⟩
+    · rw [hc] at hok; simp [applyModProp, hval] at hok
+    · rw [hc] at hok; simp [applyModProp, hval] at hok
+    · rw [hc] at hok; simp [applyModProp, hv, hval] at hok
+  | propExtraKey d items k hd hcfg hk hne =>
+    have hex := ((modProps_ok cfg c.modProps ⟨[], [], false⟩ rfl acc.mpRaised acc.mpErrs).2 d hd).1
+    rw [hcfg] at hex
+    simp only [extraKeys, List.filter_eq_nil_iff] at hex
+    have := hex k hk
+    simp [hne] at this
+  | mandatory d hd hm hcv hcfg =>
+    have hnone : lookup d.name (applyModProps c.modProps cfg).values = none := by
+      apply modProps_no_value cfg d.name c.modProps ⟨[], [], false⟩ rfl
+      intro d' hd' hn
+      have : d' = d := name_determines (fun x : ModPropDesc Val => x.name) c.modProps wf.propNames d' hd' d hd hn
+      subst this
+      exact ⟨by rw [hcfg]; rfl, hcv⟩
+    have hmand := acc.mandatory
+    unfold checkMandatory at hmand
+    cases hf : c.modProps.find? (fun d => d.mandatory && (lookup d.name (applyModProps c.modProps cfg).values).isNone) with
+    | some d' => rw [hf] at hmand; cases hmand
+    | none =>
+      rw [List.find?_eq_none] at hf
+      have := hf d hd
+      simp [hm, hnone] at this
+  | param pd dt0 dflt items hpd hs hcfg hoff =>
+    obtain ⟨outs, o, _, _, _, _, pk, hchk⟩ := accepted_param ops c cfg i acc wf pd hpd dt0 dflt hs
+    rw [items_eq pd cfg items hcfg] at hoff
     obtain ⟨dt', hafter, hodt, hval, hnov, hdef⟩ := pk.dt
     cases hoff with
     | badProp hb => rw [pk.noBadProp] at hb; cases hb
@@ -59,104 +63,94 @@ theorem accepted_clean (ops : Ops DT Val) (c : ClassDesc DT Val) (cfg : Cfg Val)
       rcases hx with hx | hx
       · have := (hval x hx).1; rw [hconv] at this; cases this
       · have := hdef x hx; rw [hconv] at this; cases this
-    | inverted dt'' ha hchk =>
+    | inverted dt'' ha hchk' =>
       rw [hafter] at ha; cases ha
-      have hmem : o.inst ∈ (applyParams ops c.params cfg).insts := by
-        unfold applyParams; rw [hinsts]; simp; exact ⟨o, ho, rfl⟩
-      have hd := acc.datatypes
-      unfold checkDatatypes at hd
-      rw [List.filterMap_eq_nil_iff] at hd
-      have := hd o.inst hmem
-      simp [hodt, hchk] at this
+      have := hchk dt' hodt; rw [hchk'] at this; cases this
     | needsCfg hn hg =>
       have := (hnov hg).2; rw [hn] at this; cases this
 
-/-- `rejected_whole`, proved part: such a configuration is rejected and the report is not empty -/
-theorem rejected_whole_partial (ops : Ops DT Val) (c : ClassDesc DT Val) (cfg : Cfg Val)
-    (h : OffenceProved ops c cfg) : ∃ es, applyConfig ops c cfg = .error es ∧ es ≠ [] := by
+/-- `rejected_whole` (first half): a configuration of a well-formed class containing an unknown property or
+parameter name (also an unknown key in the dict given for a module property), an unknown parameter property or a
+property value of the wrong type, a value or default of the
+wrong type (for the datatype AFTER the overrides; limit parameters included, their datatype being derived from
+the base parameter's), an ill-typed module property, a missing mandatory property, a missing required value,
+or inverted limits, is rejected, and the report is not empty.  (Second half — nothing is registered and the
+module is reported — is `errors_complete`.) -/
+theorem rejected_whole (ops : Ops DT Val) (c : ClassDesc DT Val) (cfg : Cfg Val) (wf : WellFormed c)
+    (h : Offence ops c cfg) : ∃ es, applyConfig ops c cfg = .error es ∧ es ≠ [] := by
   cases hres : applyConfig ops c cfg with
-  | ok i => exact absurd h (accepted_clean ops c cfg i hres)
+  | ok i => exact absurd h (accepted_clean ops c cfg i wf hres)
   | error es => exact ⟨es, rfl, applyConfig_error_ne_nil ops c cfg es hres⟩
 
 /-! ## applied faithfully -/
 
-/-- an accepted configuration shows on the instance: for every parameter with an own datatype there is
-its parameter object, whose datatype is the class datatype with the configured overrides applied in
-order (this is what `describe` exports and what later validation uses), whose start value is the
-configured (else class level) value converted by that FINAL datatype, and whose own properties are the
-ones the cfg loop stored -/
+/-- an accepted configuration shows on the instance: for every parameter (own datatype, or limit derived from its
+base) there is its parameter object, whose datatype is the datatype it started from with the configured overrides
+applied in order (this is what `describe` exports and what later validation uses) and is consistent, and whose
+start value is the configured (else class level) value converted by that FINAL datatype -/
 theorem config_applied (ops : Ops DT Val) (c : ClassDesc DT Val) (cfg : Cfg Val) (i : Instance DT Val)
+    (wf : WellFormed c) (h : applyConfig ops c cfg = .ok i) (pd : ParamDesc DT Val) (dt0 : DT) (dflt : Option Val)
+    (hpd : pd ∈ c.params) (hs : startOf ops c cfg pd = some (dt0, dflt)) :
+    ∃ p ∈ i.params, p.name = pd.name ∧
+      ∃ dt', dtAfter ops dt0 ((cfgOf pd.name cfg).getD []) = some dt' ∧ p.dt = some dt' ∧ ops.checkDT dt' = true ∧
+        (∀ x, givenFor "value" pd.value ((cfgOf pd.name cfg).getD []) = some x →
+          ∃ y, ops.convert dt' x = some y ∧ p.value = some y) := by
+  have acc := accepted_of_ok ops c cfg i h
+  obtain ⟨outs, o, hi, _, ho, hname, pk, hchk⟩ := accepted_param ops c cfg i acc wf pd hpd dt0 dflt hs
+  obtain ⟨dt', hafter, hodt, hval, _, _⟩ := pk.dt
+  refine ⟨o.inst, by rw [hi]; exact List.mem_map_of_mem ho, hname, dt', hafter, hodt, hchk dt' hodt, ?_⟩
+  intro x hx
+  obtain ⟨hsome, hv, _⟩ := hval x hx
+  cases hc : ops.convert dt' x with
+  | none => rw [hc] at hsome; cases hsome
+  | some y => exact ⟨y, rfl, by rw [hv]; simp [conv, hc]⟩
+
+/-- configured own properties (readonly, visibility, export, …) of a parameter that is not a limit are stored as
+validated by the property's datatype -/
+theorem config_applied_own (ops : Ops DT Val) (c : ClassDesc DT Val) (cfg : Cfg Val) (i : Instance DT Val)
     (h : applyConfig ops c cfg = .ok i) (pd : ParamDesc DT Val) (dt0 : DT) (items : List (Name × Val))
     (hpd : pd ∈ c.params) (hdt : pd.dt = some dt0) (hlim : pd.limit = none)
     (hcfg : lookup pd.name cfg = some (.acc items) ∨ (lookup pd.name cfg = none ∧ items = [])) :
-    ∃ p ∈ i.params, p.name = pd.name ∧
-      ∃ dt', dtAfter ops dt0 items = some dt' ∧ p.dt = some dt' ∧ ops.checkDT dt' = true ∧
-        (∀ x, givenFor "value" pd.value items = some x →
-          ∃ y, ops.convert dt' x = some y ∧ p.value = some y) ∧
-        (∀ a, applyEntries ops (classAcc pd) items = some a → p.own = a.own) := by
+    ∃ p ∈ i.params, p.name = pd.name ∧ ∀ a, applyEntries ops (classAcc pd) items = some a → p.own = a.own := by
   have acc := accepted_of_ok ops c cfg i h
-  obtain ⟨outs, hrun, hinsts, herrs, _⟩ := foldl_run ops cfg c.params ⟨[], [], [], false⟩ rfl acc.poRaised
+  obtain ⟨outs, hrun, hi, _, herrs, _⟩ := accepted_run ops c cfg i acc
   obtain ⟨insts', o, hadd, ho⟩ := run_mem ops cfg c.params [] outs hrun pd hpd
-  have herr : o.errs = [] := by
-    have h0 : outs.flatMap (·.errs) = [] := by
-      have := acc.poErrs; unfold applyParams at this; rw [herrs] at this; simpa using this
-    rw [List.flatMap_eq_nil_iff] at h0
-    exact h0 o ho
-  have pk := param_ok ops insts' pd dt0 (lookup pd.name cfg) items o hdt hlim hcfg hadd herr
-  obtain ⟨dt', hafter, hodt, hval, _, _⟩ := pk.dt
-  have hmem : o.inst ∈ (applyParams ops c.params cfg).insts := by
-    unfold applyParams; rw [hinsts]; simp; exact ⟨o, ho, rfl⟩
-  refine ⟨o.inst, by rw [acc.inst]; exact hmem, addParam_name ops _ _ _ _ hadd, dt', hafter, hodt, ?_, ?_, pk.own⟩
-  · have hd := acc.datatypes
-    unfold checkDatatypes at hd
-    rw [List.filterMap_eq_nil_iff] at hd
-    have := hd o.inst hmem
-    simpa [hodt] using this
-  · intro x hx
-    obtain ⟨hs, hv, _⟩ := hval x hx
-    cases hc : ops.convert dt' x with
-    | none => rw [hc] at hs; cases hs
-    | some y => exact ⟨y, rfl, by rw [hv]; simp [conv, hc]⟩
+  have hst := startAcc_own ops insts' pd hlim
+  have pk := (param_ok ops insts' pd dt0 _ items o (by rw [hst]; simp [classAcc, hdt]) hcfg hadd (herrs o ho)).2
+  rw [hst] at pk
+  exact ⟨o.inst, by rw [hi]; exact List.mem_map_of_mem ho, addParam_name ops _ _ _ _ hadd, pk⟩
 
 /-! ## written exactly once, before the first poll -/
 
-/-- for an accepted configuration of a class with distinct parameter names:
+/-- for an accepted configuration of a well-formed class:
 (1) the configured (else class level) value of a parameter with a write method is handed to it,
 (2) no parameter is written twice, (3) the first poll comes after all writes and only once,
 (4) nothing is written that has no write method -/
 theorem writes_once_before_poll (ops : Ops DT Val) (c : ClassDesc DT Val) (cfg : Cfg Val) (i : Instance DT Val)
-    (h : applyConfig ops c cfg = .ok i) (hnd : (c.params.map (·.name)).Nodup) :
-    (∀ pd dt0 items x, pd ∈ c.params → pd.dt = some dt0 → pd.limit = none →
-        (lookup pd.name cfg = some (.acc items) ∨ (lookup pd.name cfg = none ∧ items = [])) →
-        pd.hasWrite = true → givenFor "value" pd.value items = some x → Ev.write pd.name x ∈ prologue i) ∧
+    (wf : WellFormed c) (h : applyConfig ops c cfg = .ok i) :
+    (∀ pd dt0 dflt x, pd ∈ c.params → startOf ops c cfg pd = some (dt0, dflt) →
+        pd.hasWrite = true → givenFor "value" pd.value ((cfgOf pd.name cfg).getD []) = some x →
+        Ev.write pd.name x ∈ prologue i) ∧
     (i.writeDict.map (·.1)).Nodup ∧
     (prologue i = i.writeDict.map (fun kv => Ev.write kv.1 kv.2) ++ [Ev.firstPoll]) ∧
     (∀ p v, Ev.write p v ∈ prologue i → ∃ pd ∈ c.params, pd.name = p ∧ pd.hasWrite = true) := by
   have acc := accepted_of_ok ops c cfg i h
-  obtain ⟨outs, hrun, hinsts, herrs, hwrites⟩ := foldl_run ops cfg c.params ⟨[], [], [], false⟩ rfl acc.poRaised
-  have hwd : i.writeDict = outs.filterMap writeOf := by
-    rw [acc.inst]; unfold applyParams; rw [hwrites]; simp
+  obtain ⟨outs, hrun, _, hwd, _, _⟩ := accepted_run ops c cfg i acc
   refine ⟨?_, ?_, rfl, ?_⟩
-  · intro pd dt0 items x hpd hdt hlim hcfg hw hx
-    obtain ⟨insts', o, hadd, ho⟩ := run_mem ops cfg c.params [] outs hrun pd hpd
-    have herr : o.errs = [] := by
-      have h0 : outs.flatMap (·.errs) = [] := by
-        have := acc.poErrs; unfold applyParams at this; rw [herrs] at this; simpa using this
-      rw [List.flatMap_eq_nil_iff] at h0
-      exact h0 o ho
-    have pk := param_ok ops insts' pd dt0 (lookup pd.name cfg) items o hdt hlim hcfg hadd herr
+  · intro pd dt0 dflt x hpd hs hw hx
+    obtain ⟨outs', o, _, hwd', ho, hname, pk, _⟩ := accepted_param ops c cfg i acc wf pd hpd dt0 dflt hs
     obtain ⟨dt', _, _, hval, _, _⟩ := pk.dt
     have hwv := (hval x hx).2.2
     rw [hw] at hwv
     simp only [prologue, writeInitParams, List.mem_append, List.mem_map]
     left
     refine ⟨(pd.name, x), ?_, rfl⟩
-    rw [hwd, List.mem_filterMap]
-    exact ⟨o, ho, by simp [writeOf, hwv, addParam_name ops _ _ _ _ hadd]⟩
+    rw [hwd', List.mem_filterMap]
+    exact ⟨o, ho, by simp [writeOf, hwv, hname]⟩
   · rw [hwd]
     have hs := writes_sublist outs
     rw [run_names ops cfg c.params [] outs hrun] at hs
-    exact hs.nodup hnd
+    exact hs.nodup wf.paramNames
   · intro p v hin
     simp only [prologue, writeInitParams, List.mem_append, List.mem_map, List.mem_singleton] at hin
     rcases hin with ⟨kv, hkv, heq⟩ | hfp
@@ -292,14 +286,66 @@ theorem errors_complete (ops : Ops DT Val) :
 
 /-! ## merging -/
 
-/-- full statement of `merge_first_wins`: what `load_config` returns satisfies the merge clause
-(first definition of each name wins, origin recorded for merged-in modules, names occurring in
-several files are listed as ambiguous) for every list of files whose module names are unique
-within a file.  NOT proved in general (no time left for the induction over files); checked by the
-monitor `mergeB` on every observed merge, and proved below on concrete file lists. -/
-def merge_first_wins_statement : Prop :=
-  ∀ (files : List (CfgFile String)), (∀ f ∈ files, (f.modules.map (·.1)).Nodup) →
-    mergeB (· == ·) files (loadConfig files) = true
+/-- the definition a (sub)list of `Mod` calls of one file leaves for name `k`: the LAST one -/
+def lastDef {M : Type} (k : Name) (l : List (Name × M)) (init : Option M) : Option M :=
+  l.foldl (fun acc kv => if kv.1 = k then some kv.2 else acc) init
+
+theorem lookup_setKey {M : Type} (k n : Name) (v : M) : ∀ (d : List (Name × M)),
+    lookup k (setKey n v d) = if n = k then some v else lookup k d := by
+  intro d
+  induction d with
+  | nil => simp [setKey, lookup]
+  | cons x d ih =>
+    simp only [setKey]
+    by_cases hx : x.1 = n
+    · simp only [hx, ↓reduceIte, lookup]
+      by_cases hn : n = k <;> simp [hn]
+    · simp only [hx, ↓reduceIte, lookup, ih]
+      by_cases hxk : x.1 = k
+      · have : n ≠ k := fun h => hx (by rw [hxk, h])
+        simp [hxk, this]
+      · simp [hxk]
+
+/-- `merge_first_wins`, part 1 — within ONE file a later `Mod` of the same name replaces the earlier one
+(`Config.__init__`: dict comprehension; only a warning is logged) -/
+theorem file_last_wins {M : Type} (k : Name) : ∀ (l : List (Name × M)) (d : List (Name × M)),
+    lookup k (l.foldl (fun d kv => setKey kv.1 kv.2 d) d) = lastDef k l (lookup k d) := by
+  intro l
+  induction l with
+  | nil => intro d; rfl
+  | cons x l ih =>
+    intro d
+    simp only [List.foldl_cons, lastDef]
+    rw [ih, lookup_setKey]
+    rfl
+
+/-- `merge_first_wins`, part 2 — what `load_config` (repeated `Config.merge_modules`) guarantees for every list of
+files and every module name `k`: the merged configuration holds for `k` the definition of the FIRST file that
+defines it, with origin `none` if that is the first file and `some equipment_id` of the defining file otherwise
+(`original_id`), nothing if no file defines it; and `k` is listed as ambiguous iff at least two files define it -/
+theorem merge_first_wins {M : Type} (f : CfgFile M) (rest : List (CfgFile M)) (k : Name) :
+    lookup k (loadConfig (f :: rest)).modules = firstDef (f :: rest) true k ∧
+    (k ∈ (loadConfig (f :: rest)).ambiguous ↔ 2 ≤ countFiles (f :: rest) k) := by
+  have hknown : ∀ x, (lookup x (⟨f.modules.map (fun m => (m.1, m.2, (none : Option Name))), []⟩ : Merged M).modules).isSome
+      = (fun x => (lookup x f.modules).isSome) x := by
+    intro x
+    have := Lemmas.Merge.lookup_map (fun m : M => (m, (none : Option Name))) x f.modules
+    simp only [this]
+    cases lookup x f.modules <;> rfl
+  obtain ⟨h1, h2⟩ := Lemmas.Merge.fold_spec rest _ _ hknown k
+  unfold loadConfig
+  constructor
+  · rw [h1]
+    have := Lemmas.Merge.lookup_map (fun m : M => (m, (none : Option Name))) k f.modules
+    simp only [this, firstDef]
+    cases hk : lookup k f.modules <;> simp
+  · rw [h2, Lemmas.Merge.ambRest_count]
+    have hc : countFiles (f :: rest) k = (if (lookup k f.modules).isSome then 1 else 0) + countFiles rest k := by
+      unfold countFiles
+      simp only [List.filter_cons]
+      split <;> simp <;> omega
+    rw [hc]
+    cases hg : (lookup k f.modules).isSome <;> simp <;> omega
 
 /-! ## non-vacuity (a small non-recursive instance of the oracles: a datatype is a pair of integer limits) -/
 
@@ -335,8 +381,11 @@ example : ∃ i, applyConfig toyOps exClass exCfg = .ok i ∧ (exClass.params.ma
     lookup exParam.name exCfg = some (.acc [("value", 15), ("max", 20), ("readonly", 1)]) :=
   ⟨_, rfl, by decide, rfl⟩
 
+theorem exClass_wf : WellFormed exClass :=
+  ⟨by decide, by decide, by intro pd hpd hl; simp [exClass, exParam] at hpd; subst hpd; simp at hl⟩
+
 /-- rejected: an unknown name -/
-example : OffenceProved toyOps exClass (exCfg ++ [("zz", .prop (.bare 4))]) :=
+example : Offence toyOps exClass (exCfg ++ [("zz", .prop (.bare 4))]) :=
   .unknownName "zz" (by decide) (by decide)
 
 /-- rejected: an ill-typed value; the report names it -/
@@ -345,26 +394,44 @@ example : (match applyConfig toyOps exClass [("description", .prop (.bare 7)), (
     | .ok _ => false) = true := by decide
 
 /-- inverted limits are an offence of the proved kind -/
-example : OffenceProved toyOps exClass [("description", .prop (.bare 7)), ("pa", .acc [("min", 11)])] :=
-  .param exParam (0, 10) [("min", 11)] (List.mem_singleton.2 rfl) rfl rfl (Or.inl rfl)
+example : Offence toyOps exClass [("description", .prop (.bare 7)), ("pa", .acc [("min", 11)])] :=
+  .param exParam (0, 10) (some 1) [("min", 11)] (List.mem_singleton.2 rfl) rfl (Or.inl rfl)
     (.inverted (11, 10) rfl rfl)
 
 /-- an unknown parameter property is an offence of the proved kind -/
-example : OffenceProved toyOps exClass [("description", .prop (.bare 7)), ("pa", .acc [("nosuch", 1)])] :=
-  .param exParam (0, 10) [("nosuch", 1)] (List.mem_singleton.2 rfl) rfl rfl (Or.inl rfl) (.badProp rfl)
+example : Offence toyOps exClass [("description", .prop (.bare 7)), ("pa", .acc [("nosuch", 1)])] :=
+  .param exParam (0, 10) (some 1) [("nosuch", 1)] (List.mem_singleton.2 rfl) rfl (Or.inl rfl) (.badProp rfl)
 
 def exLimit : ParamDesc (Int × Int) Int :=
   { name := "pa_max", dt := none, limit := some .max, base := "pa", value := none, default := none,
     needscfg := false, hasWrite := false, own := [] }
 
-/-- the recorded finding, proved on the model: the cfg of a derived `Limit` parameter with an unknown
-property is an error by the specification, and it is accepted -/
-theorem limit_cfg_ignored :
-    limitOffendingB toyOps { exClass with params := [exParam, exLimit] }
-      [("description", .prop (.bare 7)), ("pa_max", .acc [("nosuch", 1)])] = true ∧
-    (applyConfig toyOps { exClass with params := [exParam, exLimit] }
-      [("description", .prop (.bare 7)), ("pa_max", .acc [("nosuch", 1)])]).toBool = true := by
-  constructor <;> decide
+def exClassL : ClassDesc (Int × Int) Int := { exClass with params := [exParam, exLimit] }
+
+theorem exClassL_wf : WellFormed exClassL := by
+  refine ⟨by decide, by decide, ?_⟩
+  intro pd hpd hl b hb hn
+  simp only [exClassL, List.mem_cons, List.not_mem_nil, or_false] at hpd hb
+  rcases hpd with rfl | rfl
+  · simp [exParam] at hl
+  · rcases hb with rfl | rfl
+    · rfl
+    · simp [exLimit] at hn
+
+/-- the former finding (cfg of a derived limit ignored) is an offence by the specification … -/
+example : Offence toyOps exClassL [("description", .prop (.bare 7)), ("pa_max", .acc [("nosuch", 1)])] :=
+  .param exLimit (0, 10) (some 10) [("nosuch", 1)] (by simp [exClassL]) rfl (Or.inl rfl) (.badProp rfl)
+
+/-- … and the repaired model rejects it (the constructor is left by the exception of `setProperty`) -/
+example : (match applyConfig toyOps exClassL [("description", .prop (.bare 7)), ("pa_max", .acc [("nosuch", 1)])] with
+    | .error es => es == [.raised]
+    | .ok _ => false) = true := by decide
+
+/-- an override on the limit applies to the limit only: `pa` keeps 0..10, `pa_max` gets 0..5, start value 10 -/
+example : (match applyConfig toyOps exClassL [("description", .prop (.bare 7)), ("pa_max", .acc [("max", 5)])] with
+    | .ok i => i.params.map (fun p => (p.name, p.dt, p.value)) ==
+        [("pa", some (0, 10), some 1), ("pa_max", some (0, 5), some 10)]
+    | .error _ => false) = true := by decide
 
 /-- merging on a concrete example: three files, `b` defined in all of them, `c` only in the third -/
 example : mergeB (· == ·)
